@@ -183,6 +183,40 @@ Proof. exact LifecycleProofs.lifecycle_stop_window_refuted. Qed.
 Print Assumptions lifecycle_stop_window_refuted.
 
 (* ---------------------------------------------------------------------------------------------
+   Program exit.  The `main` wrapper of Cello.h (two switches read off the macro text: it registers
+   Cello_Exit with atexit before Cello_Main, and it does not call it again after the return) tears the
+   collector down on EVERY termination route — return from main, exit() from a nested call, exit()
+   inside a with/try block, an uncaught throw, a non-zero exit status, exit after a worker thread —
+   once: every managed object allocated before is finalised exactly once by the time the process is gone *)
+Theorem lifecycle_terminate_complete :
+  forall (r : route) (h : list ev) (order : list nat) (x : nat) (b : bool),
+    no_alloc_in_stop_window gc_rem_pending_finalises gc_sweep_nulls_first gc_set_defers_in_sweep h = true ->
+    let s := run gc_rem_pending_finalises gc_sweep_nulls_first gc_set_defers_in_sweep h in
+    torn s = false -> info s x = Some (KManaged, b) ->
+    let s' := terminate gc_rem_pending_finalises gc_sweep_nulls_first gc_set_defers_in_sweep
+                        main_registers_atexit main_tears_down_after_return r order s in
+    (fin_count s' x = 1 /\ free_count s' x = 1) /\ torn s' = true.
+Proof. exact (terminate_complete_sw _ _ _ _ _ eq_refl eq_refl eq_refl eq_refl eq_refl). Qed.
+Print Assumptions lifecycle_terminate_complete.
+
+(* a wrapper that tears down only after Cello_Main has returned (no atexit): exit() below main and an
+   uncaught throw leave every managed object behind; returning from main is fine *)
+Theorem lifecycle_terminate_refuted_without_atexit :
+  let s := terminate true true true false true RExit [] (run true true true exit_history) in
+  no_alloc_in_stop_window true true true exit_history = true /\ bad s = false /\ torn s = false /\
+  info s 1 = Some (KManaged, false) /\ fin_count s 1 = 0 /\ fin_count s 2 = 0 /\
+  fin_count (terminate true true true false true RThrow [] (run true true true exit_history)) 1 = 0 /\
+  fin_count (terminate true true true false true RReturn [] (run true true true exit_history)) 1 = 1.
+Proof. exact terminate_refuted_without_atexit. Qed.
+Print Assumptions lifecycle_terminate_refuted_without_atexit.
+
+Example lifecycle_terminate_inhabited :
+  no_alloc_in_stop_window true true true exit_history = true /\ torn (run true true true exit_history) = false /\
+  info (run true true true exit_history) 1 = Some (KManaged, false) /\
+  fin_count (terminate true true true true false RExit [] (run true true true exit_history)) 2 = 1.
+Proof. exact exit_history_ok. Qed.
+
+(* ---------------------------------------------------------------------------------------------
    The abstract registry of the life-cycle machine is a sound abstraction of the concrete robin-hood
    registry of property C17 (coq/RegistryModel.v; RM, RP = RegistryModel, RegistryProofs).
    Vocabulary (coq/LifecycleGlue.v): abs_reg / abs_pend = a C17 state seen as registry list (slot
